@@ -13,7 +13,8 @@ RULE = ("convex-constrained solver runs: 1-3 balls/half-spaces/boxes with a comm
         "is bit-identical to the output of a logged call (first evaluation: the call made by solve itself on x0); if that call "
         "stopped by its rule, x is within sqrt(p*tol)(1+1e-9) of each of the p sets; with bounds, lower <= x <= upper exactly for "
         "every call. Non-trivial = run in which >= 1 evaluated point lay on the boundary of a user set or bound; distinct by "
-        "configuration hash")
+        "configuration hash"
+        " Second session: distances judged with the harness's own projectors; in-place user projectors and other calling forms on 30 % of the runs.")
 ASSUMPTIONS = ["projectors supplied by the harness are exact projections",
                "tol / max_iter are those each logged call actually received: the model's own calls use the defaults (1e-10, 100) whatever "
                "dykstra.d_tol / dykstra.max_iters say (recorded as an observation)"]
